@@ -13,6 +13,7 @@ import (
 	"net/url"
 	"os"
 	"runtime"
+	"slices"
 	"sort"
 	"strconv"
 	"strings"
@@ -36,6 +37,59 @@ var c07Hosts = []string{
 }
 
 var c07IPs = []string{"192.168.1.5", "192.168.1.55", "10.0.0.1", "2001:db8::1", "127.0.0.1"}
+
+// c07Mask is the property's own reading of the anonymisation (last 16 bits of
+// an IPv4 address, last 80 bits of an IPv6 address zeroed), independent of
+// querylog.AnonymizeIP.
+func c07Mask(ip string) string {
+	a, err := netip.ParseAddr(ip)
+	if err != nil {
+		return ip
+	}
+	if a.Is4() || a.Is4In6() {
+		b := a.Unmap().As4()
+		b[2], b[3] = 0, 0
+		return netip.AddrFrom4(b).String()
+	}
+	b := a.As16()
+	for i := 6; i < 16; i++ {
+		b[i] = 0
+	}
+	return netip.AddrFrom16(b).String()
+}
+
+// c07Texts: the address texts of a case (the pool, then the masked forms);
+// c07TextIndex finds one (len(c07Texts()) = not an address of the case).
+func c07Texts() (texts []string) {
+	texts = append(texts, c07IPs...)
+	for _, ip := range c07IPs {
+		texts = append(texts, c07Mask(ip))
+	}
+	return texts
+}
+
+func c07TextIndex(s string) int {
+	ts := c07Texts()
+	for i, t := range ts {
+		if t == s {
+			return i
+		}
+	}
+	return len(ts)
+}
+
+// c07CoqTexts renders the two tables of a CHist case: the texts and the
+// (address, masked address) index pairs.
+func c07CoqTexts() (texts, masks string) {
+	var ts, ms []string
+	for _, t := range c07Texts() {
+		ts = append(ts, vfBytes(t))
+	}
+	for i := range c07IPs {
+		ms = append(ms, vfPair(vfN(uint64(i)), vfN(uint64(len(c07IPs)+i))))
+	}
+	return vfList("bytes", ts), vfList("N * N", ms)
+}
 
 var c07CIDs = []string{"", "", "phone", "my-laptop", "tv", "Sys-Kiosk"}
 
@@ -72,7 +126,8 @@ type c07Rec struct {
 	cid      string
 	reason   filtering.Reason
 	filtered bool
-	want     string // canonical JSON of the entry as the API showed it when recorded
+	want     string // canonical JSON of the entry as the API shows it with anonymisation off
+	wantAnon string // the same with the client address masked (c07Mask)
 	where    int    // 0 memory, 1 current file, 2 rotated file, -1 gone
 }
 
@@ -99,7 +154,12 @@ type c07H struct {
 	// lockHeld: the harness itself holds fileFlushLock, so the flush an Add
 	// spawns cannot run yet (the Add is recorded as OAddAsync).
 	lockHeld bool
+	// anon: anonymize_client_ip as last configured (kept across restarts, as
+	// the configuration file keeps it).
+	anon bool
 	desc    []string
+	// anonSeen: entries that were served from memory while anonymising
+	anonSeen map[int]bool
 }
 
 func (h *c07H) fail(key, format string, a ...any) {
@@ -162,6 +222,9 @@ func (h *c07H) newLog(memSize uint, fileEnabled, enabled bool) {
 		MemSize:        memSize,
 		Enabled:        enabled,
 		FileEnabled:    fileEnabled,
+	}
+	if h.anon {
+		h.conf.Anonymizer = aghnet.NewIPMut(AnonymizeIP)
 	}
 	h.l, err = newQueryLog(h.conf)
 	if err != nil {
@@ -280,11 +343,16 @@ func (h *c07H) add() {
 		h.t.Fatal(err)
 	}
 	rec.jlen = len(b)
+	// rendered on a private copy of the address and without the anonymiser,
+	// so that this extra call cannot touch the entry in the buffer
 	clone := ent.shallowClone()
-	jb, _ := json.Marshal(l.entryToJSON(h.ctx, clone, l.anonymizer.Load()))
+	clone.IP = slices.Clone(ent.IP)
+	jb, _ := json.Marshal(l.entryToJSON(h.ctx, clone, aghnet.NewIPMut(nil).Load()))
 	var m map[string]any
 	_ = json.Unmarshal(jb, &m)
 	rec.want = c07Canon(m)
+	m["client"] = c07Mask(rec.ip)
+	rec.wantAnon = c07Canon(m)
 	if !h.lockHeld {
 		l.fileFlushLock.Unlock()
 	}
@@ -422,15 +490,30 @@ func (h *c07H) op() {
 		if c07ForceTable >= 0 {
 			h.table = c07ForceTable
 		}
-		body, _ := json.Marshal(map[string]any{"enabled": en, "anonymize_client_ip": false,
+		wasAnon := h.anon
+		if r.Chance(1, 2) {
+			h.anon = !h.anon
+		}
+		body, _ := json.Marshal(map[string]any{"enabled": en, "anonymize_client_ip": h.anon,
 			"interval": float64(timeutil.Day.Milliseconds()), "ignored": c07IgnoreLists[h.ignore]})
 		w := httptest.NewRecorder()
 		l.handlePutQueryLogConfig(w, httptest.NewRequest("PUT", "/control/querylog/config/update", bytes.NewReader(body)))
 		if w.Code != 200 {
 			h.t.Fatalf("config update: %d %s", w.Code, w.Body.String())
 		}
-		h.steps = append(h.steps, vfApp("C07.HOp", vfApp("OSetConfig", vfBool(en), h.coqIgnored(), h.coqClients())))
+		h.steps = append(h.steps, vfApp("C07.HOp", vfApp("OSetConfig", vfBool(en), h.coqIgnored(), h.coqClients())),
+			vfApp("C07.HAnon", vfBool(h.anon)))
 		h.cls["op-config"] = true
+		if h.anon != wasAnon {
+			h.cls["op-config-anonymize-toggled"] = true
+			// a request right behind the change: served with the switch on, it
+			// must leave the stored entries alone; served right after the switch
+			// went off, it must show the recorded addresses again
+			if r.Chance(2, 3) {
+				h.state()
+				h.listing()
+			}
+		}
 	default:
 		fe := l.conf.FileEnabled
 		if err := l.Shutdown(h.ctx); err != nil && !strings.Contains(err.Error(), "nothing to write") {
@@ -544,6 +627,17 @@ type c07Resp struct {
 	nss    []int64
 	oldest string
 	raw    []map[string]any
+	// clients: the "client" member of every returned entry
+	clients []string
+}
+
+// listing asks for everything and checks it against the property.
+func (h *c07H) listing() {
+	all := h.expected(c07Query{})
+	resp := h.search(c07Query{})
+	if resp.code == 0 && !c07Eq(resp.ids, all) {
+		h.fail("complete-once-ordered", "full listing returned %v, recorded and not removed: %v", resp.ids, all)
+	}
 }
 
 func (h *c07H) search(q c07Query) (resp c07Resp) {
@@ -587,10 +681,25 @@ func (h *c07H) search(q c07Query) (resp c07Resp) {
 				}
 				ns := t.UnixNano()
 				resp.nss = append(resp.nss, ns)
+				cl, _ := e["client"].(string)
+				resp.clients = append(resp.clients, cl)
 				if rec := h.byNS[ns]; rec != nil {
 					resp.ids = append(resp.ids, rec.id)
-					if got := c07Canon(e); got != rec.want {
-						h.fail("entry-fields", "entry %d returned with other fields than recorded: %s vs %s", rec.id, got, rec.want)
+					want, wantCl := rec.want, rec.ip
+					if h.anon {
+						want, wantCl = rec.wantAnon, c07Mask(rec.ip)
+						h.cls["served-while-anonymising"] = true
+						if rec.where == 0 {
+							h.anonSeen[rec.id] = true
+						}
+					} else if h.anonSeen[rec.id] {
+						h.cls["served-plain-after-served-anonymised"] = true
+					}
+					if cl != wantCl {
+						h.fail("client-as-recorded", "entry %d (recorded with client %s, anonymize_client_ip now %v) returned with client %s, want %s",
+							rec.id, rec.ip, h.anon, cl, wantCl)
+					} else if got := c07Canon(e); got != want {
+						h.fail("entry-fields", "entry %d returned with other fields than recorded: %s vs %s", rec.id, got, want)
 					}
 				} else {
 					resp.ids = append(resp.ids, 0)
@@ -603,11 +712,11 @@ func (h *c07H) search(q c07Query) (resp c07Resp) {
 			h.t.Fatalf("unexpected status %d", w.Code)
 		}
 	}
-	ids := make([]string, len(resp.ids))
+	rows := make([]string, len(resp.ids))
 	for i, id := range resp.ids {
-		ids[i] = vfN(uint64(id))
+		rows[i] = vfPair(vfN(uint64(id)), vfN(uint64(c07TextIndex(resp.clients[i]))))
 	}
-	h.steps = append(h.steps, vfApp("C07.HSearch", q.coq(), vfZ(int64(resp.code)), vfList("N", ids), vfZ(oldestNS)))
+	h.steps = append(h.steps, vfApp("C07.HSearchC", q.coq(), vfZ(int64(resp.code)), vfList("N * N", rows), vfZ(oldestNS)))
 	return resp
 }
 
@@ -961,6 +1070,103 @@ func (h *c07H) battery(full bool) {
 	}
 }
 
+func c07CHist(c0 string, steps []string) string {
+	texts, masks := c07CoqTexts()
+	return vfApp("C07.CHist", vfZ(maxEntrySize), vfZ(bufferSize), c0, texts, masks, vfList("C07.hstep", steps))
+}
+
+// c07AnonPrelude: the scenario of the clause "returned with the client it was
+// recorded with" under configuration changes: entries recorded with
+// anonymisation off (some flushed, some rotated, some in memory), switch on,
+// everything listed (and paged), switch off, listed again; then the memory
+// part is flushed and rotated and listed again, so that what went to the files
+// is seen as well; finally entries recorded while the switch is on.
+func c07AnonPrelude(t *testing.T, out *vfOut, r *vfRand, mem uint) {
+	dir, err := os.MkdirTemp(t.TempDir(), "a")
+	if err != nil {
+		t.Fatal(err)
+	}
+	defer os.RemoveAll(dir)
+	h := &c07H{t: t, ctx: context.Background(), r: r, dir: dir, byNS: map[int64]*c07Rec{}, cls: map[string]bool{}, anonSeen: map[int]bool{}}
+	h.newLog(mem, true, true)
+	c0 := h.coqConfig()
+	setAnon := func(on bool) {
+		h.anon = on
+		body, _ := json.Marshal(map[string]any{"enabled": true, "anonymize_client_ip": on,
+			"interval": float64(timeutil.Day.Milliseconds()), "ignored": c07IgnoreLists[h.ignore]})
+		w := httptest.NewRecorder()
+		h.l.handlePutQueryLogConfig(w, httptest.NewRequest("PUT", "/control/querylog/config/update", bytes.NewReader(body)))
+		if w.Code != 200 {
+			t.Fatalf("config update: %d %s", w.Code, w.Body.String())
+		}
+		h.steps = append(h.steps, vfApp("C07.HOp", vfApp("OSetConfig", vfBool(true), h.coqIgnored(), h.coqClients())),
+			vfApp("C07.HAnon", vfBool(on)))
+		h.cls["op-config"] = true
+		h.cls["op-config-anonymize-toggled"] = true
+	}
+	rotate := func() {
+		if err = h.l.rotate(h.ctx); err != nil {
+			t.Fatal(err)
+		}
+		for _, x := range h.recs {
+			if x.where == 2 {
+				x.where = -1
+			} else if x.where == 1 {
+				x.where = 2
+			}
+		}
+		h.steps = append(h.steps, "(C07.HOp ORotate)")
+	}
+	flush := func() {
+		_ = h.l.flushLogBuffer(h.ctx)
+		h.moveMemToFile()
+		h.steps = append(h.steps, "(C07.HOp OFlush)")
+	}
+	for i := uint(0); i < mem; i++ { // the last one fills the buffer: flushed
+		h.add()
+	}
+	rotate()
+	for i := uint(0); i < mem; i++ {
+		h.add()
+	}
+	for i := uint(0); i+1 < mem; i++ {
+		h.add() // these stay in memory
+	}
+	h.state()
+	h.listing()
+	setAnon(true)
+	h.listing()
+	h.battery(false)
+	setAnon(false)
+	h.listing()
+	setAnon(true)
+	h.listing()
+	setAnon(false)
+	flush()
+	h.state()
+	h.listing()
+	rotate()
+	h.listing()
+	setAnon(true)
+	for i := uint(0); i < mem+1; i++ {
+		h.add()
+	}
+	h.listing()
+	setAnon(false)
+	h.state()
+	h.battery(true)
+	c := vfCase{
+		Coq: c07CHist(c0, h.steps),
+		Nontrivial: true, MonitorOK: len(h.msgs) == 0, MonitorMsg: strings.Join(h.msgs, "; "), FindingKey: h.key,
+		Desc: map[string]any{"kind": "anonymise-toggle", "mem_size": mem, "entries": len(h.recs), "searches": h.nsearch},
+	}
+	for k := range h.cls {
+		c.Classes = append(c.Classes, k)
+	}
+	sort.Strings(c.Classes)
+	out.Emit(c)
+}
+
 // c07Stuck is set once a flush never finished: later histories are skipped.
 var c07Stuck bool
 
@@ -984,7 +1190,7 @@ func c07History(t *testing.T, out *vfOut, r *vfRand, nops int, mem uint, fileEna
 		t.Fatal(err)
 	}
 	defer os.RemoveAll(dir)
-	h := &c07H{t: t, ctx: context.Background(), r: r, dir: dir, byNS: map[int64]*c07Rec{}, cls: map[string]bool{},
+	h := &c07H{t: t, ctx: context.Background(), r: r, dir: dir, byNS: map[int64]*c07Rec{}, cls: map[string]bool{}, anonSeen: map[int]bool{},
 		table: r.Intn(len(c07ClientTables)), ignore: r.Intn(2)}
 	if c07ForceTable >= 0 {
 		h.table = c07ForceTable
@@ -1017,7 +1223,7 @@ func c07History(t *testing.T, out *vfOut, r *vfRand, nops int, mem uint, fileEna
 		}
 	}
 	c := vfCase{
-		Coq: vfApp("C07.CHist", vfZ(maxEntrySize), vfZ(bufferSize), c0, vfList("C07.hstep", h.steps)),
+		Coq: c07CHist(c0, h.steps),
 		Nontrivial: len(h.recs) > 0,
 		MonitorOK:  len(h.msgs) == 0,
 		MonitorMsg: strings.Join(h.msgs, "; "),
@@ -1039,7 +1245,7 @@ func c07ScanPrelude(t *testing.T, out *vfOut, r *vfRand) {
 		t.Fatal(err)
 	}
 	defer os.RemoveAll(dir)
-	h := &c07H{t: t, ctx: context.Background(), r: r, dir: dir, byNS: map[int64]*c07Rec{}, cls: map[string]bool{}}
+	h := &c07H{t: t, ctx: context.Background(), r: r, dir: dir, byNS: map[int64]*c07Rec{}, cls: map[string]bool{}, anonSeen: map[int]bool{}}
 	h.newLog(3, true, true)
 	c0 := h.coqConfig()
 	for i, host := range []string{"a.b", "example.org", "a.b", "a.b"} {
@@ -1064,7 +1270,7 @@ func c07ScanPrelude(t *testing.T, out *vfOut, r *vfRand) {
 	}
 	h.battery(false)
 	c := vfCase{
-		Coq: vfApp("C07.CHist", vfZ(maxEntrySize), vfZ(bufferSize), c0, vfList("C07.hstep", h.steps)),
+		Coq: c07CHist(c0, h.steps),
 		Nontrivial: true, MonitorOK: len(h.msgs) == 0, MonitorMsg: strings.Join(h.msgs, "; "), FindingKey: h.key,
 		Desc: map[string]any{"kind": "scan-window-prelude", "entries": len(h.recs), "searches": h.nsearch},
 	}
@@ -1088,7 +1294,7 @@ func c07ClearRacePrelude(t *testing.T, out *vfOut, r *vfRand, mem uint) {
 		t.Fatal(err)
 	}
 	defer os.RemoveAll(dir)
-	h := &c07H{t: t, ctx: context.Background(), r: r, dir: dir, byNS: map[int64]*c07Rec{}, cls: map[string]bool{}}
+	h := &c07H{t: t, ctx: context.Background(), r: r, dir: dir, byNS: map[int64]*c07Rec{}, cls: map[string]bool{}, anonSeen: map[int]bool{}}
 	h.newLog(mem, true, true)
 	c0 := h.coqConfig()
 	for i := uint(0); i+1 < mem; i++ {
@@ -1132,7 +1338,7 @@ func c07ClearRacePrelude(t *testing.T, out *vfOut, r *vfRand, mem uint) {
 	h.state()
 	h.battery(true)
 	c := vfCase{
-		Coq: vfApp("C07.CHist", vfZ(maxEntrySize), vfZ(bufferSize), c0, vfList("C07.hstep", h.steps)),
+		Coq: c07CHist(c0, h.steps),
 		Nontrivial: true, MonitorOK: len(h.msgs) == 0, MonitorMsg: strings.Join(h.msgs, "; "), FindingKey: h.key,
 		Desc: map[string]any{"kind": "clear-overtakes-spawned-flush", "mem_size": mem, "entries": len(h.recs), "searches": h.nsearch},
 	}
@@ -1158,6 +1364,11 @@ func TestVerifC07(t *testing.T) {
 	for _, mem := range []uint{1, 2, 3, 4} {
 		if !c07Stuck {
 			c07ClearRacePrelude(t, out, pr, mem)
+		}
+	}
+	for _, mem := range []uint{1, 2, 4} {
+		if !c07Stuck {
+			c07AnonPrelude(t, out, pr, mem)
 		}
 	}
 	// names with an upper-case K / S past the start, terms kitchen / set /
